@@ -875,3 +875,57 @@ func c09TwoWriters(x *X) {
 func init() {
 	register(&Scenario{Prop: "C09", Name: "c09/two-writers-one-stream", Quick: []Bound{{1, 0}, {2, 0}}, Thorough: []Bound{{3, 0}}, Body: c09TwoWriters, BudgetQ: 20})
 }
+
+// the last use of a stream is a blocking ReadMessage (a one-shot subscription: write the request, return what
+// ReadMessage returns) and a garbage collection happens while it is blocked: nobody has closed the stream,
+// so the read stays blocked, and when the server writes, the message is delivered.  (Garbage collection is an
+// environment event placed by the driver, see vsync.CollectGarbage; finalizers registered by the library run
+// as threads of their own.)
+func c09LastUseGC(x *X) {
+	mode := basicModes[x.Choose(5)]
+	ngc := 1 + x.Choose(2)
+	f := newFixture(mode.so, mode.co)
+	f.w.streamHold = true // the handler holds its echo back
+	rdDone := false
+	var rdErr error
+	var got []byte
+	m := streamMsg(0x31, 0)
+	vs.GoNamed("subscriber", func() {
+		st, err := f.conn.NewStream("StreamSvc.Push")
+		if err != nil {
+			rdErr, rdDone = err, true
+			return
+		}
+		if err := st.WriteMessage(&m); err != nil {
+			rdErr, rdDone = err, true
+			return
+		}
+		rdErr = st.ReadMessage(nil, &got) // the last use of the stream
+		rdDone = true
+	})
+	vs.Quiesce()
+	if rdDone {
+		x.Fail("C09/setup-failed/last-use", "the subscriber returned early: %v", rdErr)
+	}
+	for i := 0; i < ngc; i++ {
+		vs.CollectGarbage()
+		vs.Quiesce()
+	}
+	if rdDone {
+		x.Fail("C09/stream-ended-behind-the-users-back", "a ReadMessage blocked on an open stream that nobody closed returned %v after a garbage collection (it was the last use of the stream by its owner; mode %s)", rdErr, mode.name)
+	}
+	f.w.streamHold = false
+	vs.Quiesce()
+	if !rdDone {
+		x.Fail("C09/message-lost/last-use", "the server wrote its answer; the blocked ReadMessage has not returned")
+	} else if rdErr != nil || !eqBytes(got, transform(m)) {
+		x.Fail("C09/message-lost/last-use", "the server's answer on an open stream was not delivered to the reader that was blocked across a garbage collection: err=%v got %x (mode %s)", rdErr, got, mode.name)
+	}
+	x.Outcome("%s ngc=%d err=%s", mode.name, ngc, errStr(rdErr))
+	f.conn.Close()
+	vs.Quiesce()
+}
+
+func init() {
+	register(&Scenario{Prop: "C09", Name: "c09/last-use-is-a-blocked-read-across-gc", Quick: []Bound{{0, 0}}, Thorough: []Bound{{1, 0}}, Body: c09LastUseGC, MaxSteps: 200000, BudgetQ: 20, BudgetT: 100})
+}
